@@ -113,7 +113,9 @@ def _nullable_star_str(tr, p):
 
 # ---------------------------------------------------------------- C17
 SPEC = list("\\.+*?()|[]{}^$#")
-A17 = SPEC + ["a", "b", "1", "-", " ", "\n", "é", "€", "𝄞", "&", "~", "/", ":", ",", "<", ">", "'", "=", "!"]
+A17 = SPEC + ["a", "b", "1", "-", " ", "\n", "é", "€", "𝄞", "&", "~", "/", ":", ",", "<", ">", "'", "=", "!",
+                # every other ASCII whitespace / control class and the remaining punctuation: none of them is special
+                "\t", "\r", "\x0b", "\x0c", "\x00", "\x1b", "\x7f", "_", "@", '"', "%", "`", ";"]
 HOSTS = ["%s", "x%s", "%sy", "(?=%s)", "(?<!q)%s", "(a)?%s\\1?", "(?>%s)z", "(?:%s){2}", "[ab]%s"]
 
 
@@ -155,7 +157,7 @@ def run_c17(tier, seed, replay=None):
     bad_t1, _, _ = t1.compare([esc[s] for s in strs[:20000]])
     res.oblige("tie:T1 parser model = real parser on %d escaped strings" % min(len(strs), 20000), not bad_t1)
     # behaviour: find == str::find, plain and embedded
-    texts = ["", "a", "xay", "a|b", "xa yb a|b", "<a> <b> <a|b>", "a.b", "axb a.b", "(a)", "é€", "a b#c", "aa", "a{2}", "\\a", "^$"]
+    texts = ["", "a", "xay", "a|b", "xa yb a|b", "<a> <b> <a|b>", "a.b", "axb a.b", "(a)", "é€", "a b#c", "aa", "a{2}", "\\a", "^$", "a\x0cb", "ab", "\ta\x0b"]
     lines, meta = [], []
     sub = strs if tier == "thorough" else strs[:1 + len(A17) + len(A17) ** 2] + strs[-400:]
     for s in sub:
@@ -207,7 +209,9 @@ def run_c14(tier, seed, replay=None):
     core.build_harness()
     r = core.rng(seed, "C14")
     feats = [gen.Feats(casei_alpha=True, multibyte=False), gen.Feats(casei_alpha=True, fancy=False, multibyte=False), gen.Feats(casei_alpha=True, flags=True, multibyte=False)]
-    corpus = ["(?<=a)b", "a(?-i:b)", "[ab]\\b", "(a)\\1", "(?-i:a)b", "a", "[a-b]+", "(?i)a", "\\w(?=B)", "(?=a)\\w{50}\\d{50}", "\\w{50}\\d{50}"]
+    corpus = ["(?<=a)b", "a(?-i:b)", "[ab]\\b", "(a)\\1", "(?-i:a)b", "a", "[a-b]+", "(?i)a", "\\w(?=B)", "(?=a)\\w{50}\\d{50}", "\\w{50}\\d{50}",
+              # {0} repetitions: plain patterns unless a capture group sits under them
+              "a{0}b", "(?:a|b{0})B", "a{0}[ab]{2}", "(?:ab){0,0}a", "b{0}?a", "(a){0}b"]
     if replay and "pattern" in replay:
         pats = [replay["pattern"]]
     else:
@@ -231,6 +235,13 @@ def run_c14(tier, seed, replay=None):
     o2 = core.run_impl("opts", l2)
     bad, known = [], []
     n = 0
+    # which patterns are VM-compiled is decided by the MODEL's analysis of the parsed tree (and tied to
+    # the real decision: T2), never by asking the implementation under test: a change that sends a
+    # plain pattern to the VM - where F-builder-casei applies - must not excuse itself
+    infos = {i["pattern"]: i for i in engine.prog_info(pats)}
+    t2bad = [i for i in infos.values() if i["t2_ok"] is False]
+    res.oblige("tie:T2 which patterns are VM-compiled (analysis facts, program listing), model = implementation on %d patterns" % len(infos), not t2bad)
+    model_fancy = lambda p: ((infos[p]["model"] or {}).get("new", "")).startswith("fancy")
     for (p, t), a, b in zip(meta, o1, o2):
         fa, fb = engine.fields(a), engine.fields(b)
         if not fa.get("build", "").startswith("ok") or not fb.get("build", "").startswith("ok"):
@@ -241,7 +252,7 @@ def run_c14(tier, seed, replay=None):
         if fa.get("caps") != fb.get("caps"):
             rec = {"kind": "input", "pattern": p, "text": t, "impl": "RegexBuilder::case_insensitive(true): " + fa.get("caps", "?"), "reference": "(?i)P: " + fb.get("caps", "?"), "check": "case_insensitive(true) on P = the pattern (?i)P"}
             import re as _re
-            if fa["build"].endswith("fancy"):
+            if fa["build"].endswith("fancy") and model_fancy(p):
                 known.append(rec)
             elif _re.search(r"\(\?[a-zA-Z]*-[a-zA-Z]*i", p):
                 known.append(dict(rec, finding="F-builder-casei-inner"))
@@ -351,6 +362,12 @@ def run_c18(tier, seed, replay=None):
             for shared in ("1", "0"):
                 tx = r.sample(THREAD_TEXTS, len(THREAD_TEXTS))
                 lines.append("%d\t%s\t%d\t%s\t%s" % (nt, shared, rounds, hexs(p), "\t".join(hexs(t) for t in tx)))
+    # builder-configured regexes (case_insensitive, raised delegate size limit, backtrack limit): clones and
+    # the shared reference must give what the configured regex gives single-threaded
+    for p, o in (("h(el+)o|[a-b]+c", "i"), ("(?P<w>[a-c]+)-", "i"), ("\\w{300}|a", "s"), ("(?:a|b|ab)*(?=c)", "l"), ("(a)\\1|B", "i")):
+        for shared in ("1", "0"):
+            tx = r.sample(THREAD_TEXTS, len(THREAD_TEXTS)) + ["say HELLO", "ABc", "aB-", "abababababab"]
+            lines.append("%d\t%s%s\t%d\t%s\t%s" % (4, shared, o, rounds, hexs(p), "\t".join(hexs(t) for t in tx)))
     out = core.run_impl("threads", lines, shards=2)
     bad = [{"kind": "input", "line": l, "impl": o} for l, o in zip(lines, out) if not o.startswith("ok")]
     # the single-threaded answers equal the model's
